@@ -469,6 +469,8 @@ class Interp:
                     return some(ref(inner[1]))
                 if inner == NONE:
                     return NONE
+                if inner and inner[0] == "sym":
+                    return inner          # an unknown option stays the same unknown option (its presence is enumerated where it is consumed)
                 return UNK
             return a0 if last in ("into", "from") else (a0 if a0 and a0[0] == "ref" else ref(a0))
         if last in ("is_some", "is_none") and args:
@@ -549,9 +551,12 @@ class Interp:
         elif inner == NONE:
             present, payload = False, None
         elif inner and inner[0] == "sym":
-            c = self._choose(2, f"opt:{where}")
-            self._assump.append(("optional", inner[1], bool(c)))
-            present, payload = bool(c), sym(inner[1] + ".Some")
+            key = ("optional", inner[1])
+            if key not in heap:                       # the presence of one unknown option is chosen once per path
+                c = self._choose(2, f"opt:{inner[1]}")
+                heap[key] = ("bool", bool(c))
+                self._assump.append(("optional", inner[1], bool(c)))
+            present, payload = heap[key][1], sym(inner[1] + ".Some")
         else:
             return _NOHOF
         if last in ("unwrap_or_else",):
